@@ -32,6 +32,7 @@ DEEP = {"debug": 20000, "release": 150000}
 # intermediate depths at which a later stage crashes although the parser survives
 LADDER = {"debug": [2000, 3000], "release": [15000, 35000]}
 SMALL_NEST = 200
+HUGE_CHAIN = 1000000
 DATA_DEEP = {"debug": 40000, "release": 75000}
 DATA_CHUNK_DEEP = {"debug": 200, "release": 1000}
 
@@ -516,6 +517,8 @@ def nest_signature(name, stage):
 def nest_shapes(ck, binary, prof, crashes):
     names = list(S.NEST)
     depths = [SMALL_NEST] + LADDER[prof] + [DEEP[prof]]
+    # chain constructs also at a million links (a few MB of source): small-frame helpers over loop-built chains
+    huge = [(n, HUGE_CHAIN) for n in names if n in S.CHAINS]
 
     def job(a):
         name, depth = a
@@ -523,7 +526,7 @@ def nest_shapes(ck, binary, prof, crashes):
         return name, depth, stage, full, src
 
     out = {}
-    for name, depth, stage, full, src in pmap(job, [(n, d) for n in names for d in depths]):
+    for name, depth, stage, full, src in pmap(job, [(n, d) for n in names for d in depths] + huge):
         ck.evaluations += 1
         out.setdefault(name, {})[str(depth)] = full if stage is None else f"{CRASH}@{stage}"
         ck.count(f"nest_{prof}_{full if stage is None else 'crash_' + stage}")
